@@ -2,7 +2,7 @@
 
 E1: listener + connection A (faulted, arrives through accept so that the
 set-up calls can fail too) + connection B (bystander); every placement of up
-to k faults from {ECONNRESET, EPIPE, ENOTCONN, EBADF, EINVAL, generic OSError}
+to k faults from {ECONNRESET, EPIPE, ENOTCONN, EBADF, EINVAL, ETIMEDOUT, generic OSError}
 on A's setblocking/getsockopt/setsockopt/recv/send and on accept, plus client
 EOF / reset events, x pre-emptions around the fault.
 """
@@ -12,7 +12,7 @@ from .. import chan, explore, venv
 from ..evidence import Run
 from . import c04
 
-MENU = (errno.ECONNRESET, errno.EPIPE, errno.ENOTCONN, errno.EBADF, errno.EINVAL, -1)
+MENU = (errno.ECONNRESET, errno.EPIPE, errno.ENOTCONN, errno.EBADF, errno.EINVAL, errno.ETIMEDOUT, -1)  # ETIMEDOUT: a dead peer that waitress does not class as a disconnect
 
 
 class Faults(chan.ChannelScenario):
@@ -160,6 +160,9 @@ def scenarios(tier):
     S.append(("A:get", dict(a_pre=get, max_faults=1), k))
     S.append(("A:big-response,window", dict(a_pre=big, a_window=40, a_events=["drain"], max_faults=1, sites=["recv", "send"]), k))
     S.append(("A:pipeline+expect", dict(a_pre=exp, a_events=["body:hello"], max_faults=1, sites=["recv", "send"]), k))
+    # the response in front of the expecting request is still being flushed by the I/O thread when the worker,
+    # in the tail of service(), sends the interim response: both paths take the two channel locks
+    S.append(("A:pipeline+expect,window", dict(a_pre=exp, a_window=40, a_events=["drain", "body:hello"], max_faults=1, sites=["send"], menu=[104, 22]), 1 if q else 2))  # the lock-order inversion between teardown and the interim response needs the fault and one pre-emption (thorough)
     S.append(("A:big-response,watermark,window", dict(a_pre=big, a_window=40, a_events=["drain"], max_faults=1, sites=["send"], adj=dict(outbuf_high_watermark=20)), k))
     S.append(("A:big-response,watermark,client-reset", dict(a_pre=big, a_window=40, a_events=["reset"], max_faults=0, adj=dict(outbuf_high_watermark=20)), k))
     S.append(("A:get,log_socket_errors=off", dict(a_pre=get, max_faults=1, adj=dict(log_socket_errors=False)), k))
